@@ -362,7 +362,9 @@ def generate(rng, index, tier, extra):  # pylint: disable=unused-argument
     if phase == 'accepted':
         seeds = accepted_sweep_list()
         path, hexdata = seeds[index % len(seeds)]
-        return {'kind': 'accsweep', 'cls': path, 'hex': hexdata}
+        if isinstance(hexdata, list):
+            return {'kind': 'accsweep', 'cls': path, 'hex': hexdata[0], 'also': hexdata[1:], 'asis_only': True}
+        return {'kind': 'accsweep', 'cls': path, 'hex': hexdata, 'cap': 800 if tier == 'quick' else None}
     if phase == 'hashseed':
         return {'kind': 'hashseed', 'subject': hash_subjects()[index], 'seeds': list(HASH_SEEDS[tier])}
     roll = rng.random()
@@ -429,13 +431,16 @@ def accepted_sweep_list():
         out = []
         for path in corpus.class_paths():
             cls = corpus.resolve(path)
-            if not (hasattr(cls, 'as_json') or hasattr(cls, '_asdict') or hasattr(cls, 'as_markdown')):
-                continue
             seeds = corpus.accepted(path)[:4]
-            seeds += [raw for raw in corpus.variants(path) if raw not in seeds][:3]
+            derived = [raw for raw in corpus.variants(path) if raw not in seeds]
+            seeds += derived[:2] + [raw for raw in derived[2:][-4:]]     # edited fields; emptied / filled fields, other zones
             for raw in seeds:
                 if 4 <= len(raw) <= 8192:
                     out.append((path, raw.hex()))
+            # every other derived variant: judged as it is (it is a valid input), without the fills
+            rest = [raw.hex() for raw in derived if raw not in seeds and 1 <= len(raw) <= 8192][:24]
+            if rest:
+                out.append((path, rest))
         _ACCEPTED_SWEEP = out
     return _ACCEPTED_SWEEP
 
@@ -459,9 +464,19 @@ def _exec_accsweep(doc, res):
     one at a time, by text of other alphabets and by integer boundary values of the same length; whatever the
     parser still accepts must serialise: totally and well-formed."""
     from simverif import wirefault
+    if doc.get('asis_only') and doc.get('also'):
+        for hexdata in [doc['hex']] + list(doc['also']):
+            _exec_accsweep({'kind': 'accsweep', 'cls': doc['cls'], 'hex': hexdata, 'asis_only': True}, res)
+            if res.violations:
+                for violation in res.violations:
+                    violation.setdefault('input', hexdata)
+                break
+        return
     cls = corpus.resolve(doc['cls']) or core.get_class(doc['cls'])
     raw = bytes.fromhex(doc['hex'])
     only = doc.get('only')
+    if doc.get('asis_only'):
+        only = [[0, 0, 'asis']]
     if only is not None:
         plan = only
     else:
@@ -478,9 +493,16 @@ def _exec_accsweep(doc, res):
         values = ('b00', 'b01', 'b7f', 'b80', 'bff') if len(raw) <= 600 else ('b01', 'bff')
         plan += [[offset, 1, name] for offset in range(len(raw)) for name in values]
     accepted = 0
+    if only is None:
+        if doc.get('cap') and len(plan) > doc['cap']:
+            step = len(plan) / float(doc['cap'])
+            plan = [plan[int(k * step)] for k in range(doc['cap'])]
+        plan = [[0, 0, 'asis']] + plan      # the valid input itself (a committed seed or a derived variant), as it is
     for start, length, name in plan:
         strict = False
-        if name.startswith('n') and name[1:].isdigit():
+        if name == 'asis':
+            fill, strict = b'', True
+        elif name.startswith('n') and name[1:].isdigit():
             fill, strict = name[1:].encode(), True
         elif name.startswith('t') and len(name) > 1 and all(c in '0123456789abcdef' for c in name[1:]):
             fill = bytes.fromhex(name[1:])
@@ -489,7 +511,7 @@ def _exec_accsweep(doc, res):
         else:
             fill = wirefault.TEXT_FILLS[name](length) if name in wirefault.TEXT_FILLS else (b'\x00' if name == 'zero' else b'\xff') * length
         data = raw[:start] + fill + raw[start + length:]
-        if data == raw:
+        if data == raw and name != 'asis':
             continue
         try:
             obj = cls.parse_immutable(data)[0]
@@ -1050,6 +1072,12 @@ def hash_phase(tier, seed):
 def shrink(doc, sig, budget):
     me = __import__('simverif.props.c14', fromlist=['x'])
     doc = dict(doc)
+    if doc['kind'] == 'accsweep' and doc.get('also'):
+        for hexdata in [doc['hex']] + list(doc['also']):
+            cand = {'kind': 'accsweep', 'cls': doc['cls'], 'hex': hexdata, 'asis_only': True}
+            if core.has_sig(me, cand, sig):
+                return cand
+        return doc
     if doc['kind'] == 'accsweep':
         result = core.guarded_execute(me, doc)
         for violation in result.violations:
